@@ -565,6 +565,9 @@ func TestC09(t *testing.T) {
 		{RetransMs: 30, MaxRetrans: 1, Sess: []int{0, 1, 2, 0, 1}, Answer: []bool{true, false, true, false, true}, BusyPct: 150},
 		{RetransMs: 30, MaxRetrans: 1, Sess: []int{0, 1, 2, 0, 1}, Answer: []bool{false, true, false, true, true}, BusyPct: 150},
 		{RetransMs: 30, MaxRetrans: 2, Sess: []int{2, 1, 0, 2, 1}, Answer: []bool{true, true, false, false, true}, BusyPct: 250},
+		// more requests outstanding than the loop's timer queue holds (64), none answered, the loop busy until long after every
+		// timer has fired: the expiries that did not fit must still be served - each request retransmitted and then abandoned
+		manyOut(80, 200, 1, 400),
 	} {
 		v, s := runReal(c)
 		accountReal(c, s)
@@ -598,4 +601,14 @@ func TestC09(t *testing.T) {
 		account(c, s)
 		report(rt, c, v)
 	})
+}
+
+// manyOut: k requests outstanding (over the three prefix sessions), none answered.
+func manyOut(k, retransMs int, maxRetrans uint8, busyPct int) RCase {
+	c := RCase{RetransMs: retransMs, MaxRetrans: maxRetrans, BusyPct: busyPct}
+	for i := 0; i < k; i++ {
+		c.Sess = append(c.Sess, i%3)
+		c.Answer = append(c.Answer, false)
+	}
+	return c
 }
